@@ -155,6 +155,26 @@ Theorem C03_quintic_exact_after_any_history (pre : list (call (T := R))) (c0 c1 
 Proof. exact (quintic_exact_after_any_history pre c0 c1 c2 c3 c4 c5 a b eps depth). Qed.
 Print Assumptions C03_quintic_exact_after_any_history.
 
+(** A piecewise-defined function integrated piece by piece — consecutive calls in one process whose limits abut exactly
+    (the lower limit of a call is the upper limit of the call before), or are related in any other way, each call with
+    its own polynomial of degree <= 5, epsilon and depth: every answer is the exact integral of its own piece.
+    A piece is ((c0,c1,c2,c3,c4,c5), (a,b), (eps,depth)); [piece_call] is the call
+    Integrate(x -> c0 + c1 x + ... + c5 x^5, a, b, eps, depth), [piece_integral] the Riemann integral of that polynomial
+    from a to b (C03_Proofs_Seq.v). *)
+Theorem C03_piecewise_quintic_exact (ps : list piece) :
+  List.map val (run_seq ROps tt (List.map piece_call ps)) = List.map piece_integral ps.
+Proof. exact (piecewise_quintic_exact ps). Qed.
+Print Assumptions C03_piecewise_quintic_exact.
+
+(** ... and one polynomial integrated over two abutting pieces [a,b], [b,c] (knots in any order, any epsilons and depths)
+    gives two answers that add up to its integral from a to c. *)
+Theorem C03_abutting_pieces_additive (c0 c1 c2 c3 c4 c5 a b c eps1 eps2 : R) (d1 d2 : Z) :
+  val (run_call ROps (CInt (fun x => c0 + c1 * x + c2 * x ^ 2 + c3 * x ^ 3 + c4 * x ^ 4 + c5 * x ^ 5) a b eps1 d1))
+  + val (run_call ROps (CInt (fun x => c0 + c1 * x + c2 * x ^ 2 + c3 * x ^ 3 + c4 * x ^ 4 + c5 * x ^ 5) b c eps2 d2))
+  = RInt (fun x => c0 + c1 * x + c2 * x ^ 2 + c3 * x ^ 3 + c4 * x ^ 4 + c5 * x ^ 5) a c.
+Proof. exact (abutting_pieces_additive c0 c1 c2 c3 c4 c5 a b c eps1 eps2 d1 d2). Qed.
+Print Assumptions C03_abutting_pieces_additive.
+
 
 (** "arbitrary integrands" includes integrands that use the integrator themselves (re-entrant use, as in
     Integrate_2D(...,"Adaptive-Simpson")): [reentrant ROps mk E] is the integrand that at abscissa x makes the call
